@@ -229,6 +229,13 @@ def tile (x : Tensor) (reps : List Int) : R Tensor := do
 
 def clampI (lo hi x : Int) : Int := max lo (min hi x)
 
+/-- The specification text and its numpy-based reference implementation disagree for one case: a
+negative step whose start lies below `-dim` (text: clamp to index 0; numpy: clamp to "before the first
+element") while the end is also before the first element. Text gives `[x[0]]`, numpy gives `[]`. -/
+def sliceAmbiguous (dim : Nat) (start stop step : Int) : Bool :=
+  let d : Int := dim
+  dim != 0 && step < 0 && start + d < 0 && (if stop < 0 then stop + d else stop) < 0
+
 /-- Effective start, number of elements for one axis. -/
 def sliceAxis (dim : Nat) (start stop step : Int) : Int × Nat :=
   let d : Int := dim
@@ -261,6 +268,8 @@ def slice (x : Tensor) (starts ends : List Int) (axes steps : Option (List Int))
     | some s => do guardR (s.length == n); pure s
     | none => pure (List.replicate n 1)
   guardR (steps.all (· != 0))
+  if (List.range n).any (fun j =>
+      sliceAmbiguous (getN x.shape (getN axes j)) (getI starts j) (getI ends j) (getI steps j)) then ambig
   -- per input axis: (start, step, len)
   let per : List (Int × Int × Nat) := (List.range r).map (fun k =>
     let j := axes.idxOf k
